@@ -26,6 +26,12 @@ buf_op(json_t *args, size_t (*fn)(const void *, size_t, void *, size_t))
     /* exact-size copy of the input so that ASan sees any read beyond il */
     exact = malloc(il ? il : 1);
     memcpy(exact, in, il);
+    /* "null": the empty input given as (NULL, 0), as jose's own callers do (jose_io_malloc leaves the pointer NULL when
+     * nothing was written) */
+    if (il == 0 && json_is_true(json_object_get(args, "null"))) {
+        free(exact);
+        exact = NULL;
+    }
 
     if (!json_is_integer(olj)) {
         json_object_set_new(res, "ret", hx_size(fn(exact, il, NULL, 0)));
@@ -91,7 +97,7 @@ op_enc(json_t *args)
     json_t *r;
     if (!in)
         return json_pack("{s:s}", "error", "no-in");
-    r = hx_opt(jose_b64_enc(in, il));
+    r = hx_opt(jose_b64_enc(il == 0 && json_is_true(json_object_get(args, "null")) ? NULL : in, il));
     free(in);
     return r;
 }
